@@ -7,7 +7,7 @@ ASSUME = [
     'tier 2 (this check): a real single-node network (real hashicorp/raft with in-memory transport, real FSM, real LevelDB raftlog/irclog, FileSnapshotStore, real HTTP handlers) runs in a child process; SIGKILL is delivered between operations and, for the post-then-kill operation, while a POST is in flight',
     'a POST that was not answered before the kill is unacknowledged: it may be part of the history or not, but never twice; the bridge retries with the same client message id',
     '"all nodes deliver the same sequence" is checked as: the stream served after a fault extends the stream served before it (the node before and after the crash are two servers of the same log)',
-    'fresh-network tier (TestVerifC05Fresh): a brand-new network without any history: all sequences of the same depth over {POST /session, POST /config, snapshot, snapshot+graceful restart as one step, SIGKILL+restart, graceful restart}, in the quick tier in both encodings (protobuf and legacy JSON); every acknowledged session must still exist and the acknowledged config revision must be in force after every operation, and the newest session posts at the end (short histories: the snapshot sees zero, one or two entries)',
+    'fresh-network tier (TestVerifC05Fresh): a brand-new network without any history: all sequences of the same depth over {POST /session, POST /config, snapshot, snapshot+graceful restart as one step, SIGKILL+restart, graceful restart}, in the quick tier in both encodings (protobuf and legacy JSON); every acknowledged session must still exist and the acknowledged config revision must be in force after every operation, and the newest session posts at the end (short histories: the snapshot sees zero, one or two entries); a further pass over {POST /session, POST /config, SIGKILL between FSM.Snapshot and Persist of a snapshot that folds every entry but the newest, snapshot+restart, SIGKILL+restart}',
     'network tier (TestVerifC05Net, harness/localnet): three REAL robustirc binaries started by the repository\'s own launcher (internal/localnet: TLS listeners, rafthttp transport, main()\'s bootstrap and join code, real timers) on loopback; all sequences of depth 2 (quick) / 3 (thorough) over {post, retry, SIGKILL leader, SIGKILL leader and post at once (the followers still proxy to the dead leader), SIGKILL a follower, restart the dead nodes, forced snapshot on every node, SIGKILL all + restart all}, each framed by a post before and after; after every operation EVERY live node serves the reader\'s complete stream up to a marker: acknowledged messages exactly once in post order, the same sequence on all nodes, each node\'s stream extends what it served before',
     'network tier, quorum loss (TestVerifC05NetQuorum): both followers are killed, a POST and -- while it is pending -- its retry are sent to the leader that cannot commit, the leader is killed, the followers return, elect a leader and commit, the old leader returns and its uncommitted entry is overwritten: whatever was answered with success must be served by every node afterwards, nothing twice',
     'limit of the network tier: fault SEQUENCES are enumerated exhaustively, the timing inside an operation (which instant of an election or replication a kill hits) is whatever the run produces, not enumerated; at most one node is dead at a time (except crash-all); raft consensus itself is trusted; a wait that exceeds its bound (60-90 s) makes the run inconclusive (exhaustive:false, exit 0), never a violation',
@@ -63,7 +63,11 @@ def run(tier):
     for r in rj:
         for v in r.get('violations') or []:
             v['sig'] += ' [json encoding]'
-    apidrive.run_seq('C05', tier, ['TestVerifC05', 'TestVerifC05Fresh'], ASSUME, RULE, level='fault_enumeration', pre_results=rn + rj, extra_cov={'network_tier': net, 'fresh_tier_json_encoding_sequences': sum(r.get('sequences', 0) for r in rj)}, t0=t0, variants=variants)
+    # the fresh-network tier with a SIGKILL in the window between FSM.Snapshot and Persist of a compacting snapshot
+    ew = {'VERIF_TIER': tier, 'VERIF_C05_ALPHA': 'window', 'VERIF_DEADLINE': str(int(t0 + budget)), 'GOMAXPROCS': '2'}
+    rw = vlib.run_workers(binary, 'TestVerifC05Fresh', vlib.NCPU, env=ew)
+    rj = rj + rw
+    apidrive.run_seq('C05', tier, ['TestVerifC05', 'TestVerifC05Fresh'], ASSUME, RULE, level='fault_enumeration', pre_results=rn + rj, extra_cov={'network_tier': net, 'fresh_tier_json_encoding_sequences': sum(r.get('sequences', 0) for r in rj) - sum(r.get('sequences', 0) for r in rw), 'fresh_tier_kill_in_snapshot_window_sequences': sum(r.get('sequences', 0) for r in rw), 'kills_between_snapshot_and_persist': sum((r.get('end_states') or {}).get('(kills between FSM.Snapshot and Persist)', 0) for r in rw)}, t0=t0, variants=variants)
 
 def replay(path):
     import subprocess
